@@ -29,9 +29,48 @@ RULE = ("random histories (10-24 ops) over up to 4 top-level spaces and nested c
         "space had a derived member whose first definer is not its first direct base, or a diamond existed")
 
 
-def check_state(live, ops, k, out, stats):
+def declared_bases(ops, upto, results):
+    """the direct bases in the order the user declared them (new_space bases=[...], add_bases in call
+    order, minus removed ones), tracked by the harness itself"""
+    decl = {}
+    for op, r in zip(ops[:upto + 1], results):
+        if r != "ok":
+            continue
+        if op[0] == "new_space":
+            path = op[2] if op[1] == "-" else op[1] + "." + op[2]
+            decl[path] = list(op[3])
+        elif op[0] == "add_bases":
+            decl.setdefault(op[1], [])
+            if decl[op[1]] is None:
+                continue
+            if any(b in decl[op[1]] for b in op[2]) or len(set(op[2])) != len(op[2]):
+                # declaring a base a second time: the property does not say where it then stands
+                decl[op[1]] = None
+            else:
+                decl[op[1]] += list(op[2])
+        elif op[0] == "remove_bases":
+            if decl.get(op[1]) is not None:
+                decl[op[1]] = [b for b in decl.get(op[1], []) if b not in op[2]]
+        elif op[0] == "del_space":
+            for p in list(decl):
+                if p == op[1] or p.startswith(op[1] + "."):
+                    del decl[p]
+            for p in decl:
+                if decl[p] is not None:
+                    decl[p] = [b for b in decl[p] if not (b == op[1] or b.startswith(op[1] + "."))]
+    return decl
+
+
+def check_state(live, ops, k, out, stats, results=None):
     """derivation from scratch vs the implementation, at the state after op k"""
     hist = S.hist_json(ops, k)
+    if results is not None:
+        decl = declared_bases(ops, k, results)
+        for p, s in W.all_spaces(live.m):
+            got = [W.rel(live.m, b) for b in s._direct_bases]
+            if decl.get(p) is not None and got != decl[p]:
+                out.fail("direct bases of %s are reported as %s but were declared in the order %s" % (
+                    p, got, decl[p]), hist)
     defs = W.definitions(live.m)
     desc = W.describe(live.m, with_values=False)
     paths = list(defs["spaces"])
@@ -122,6 +161,7 @@ def run_history(ops, out, stats, check_values=True, rng=None, n_ops=0):
     close_all()
     live = W.Live("M")
     nontrivial = False
+    results = []
     focus = (2 if rng.random() < 0.4 else None) if rng is not None else None
     if rng is not None and not ops:
         ops += [["set_mref", "u", 11], ["set_mref", "r", 12]] + S.motif(rng)
@@ -136,14 +176,16 @@ def run_history(ops, out, stats, check_values=True, rng=None, n_ops=0):
             k += 1
             if op[0] == "evalall":
                 S.eval_everything(live)
+                results.append("ok")
                 continue
             r = live.apply(op)
+            results.append(r)
             stats["op:" + op[0]] += 1
             if r.startswith("err"):
                 stats["rejected:" + op[0]] += 1
             if op[0] in ("eval", "set_value", "clear", "clear_all", "clear_at"):
                 continue
-            if check_state(live, ops, k - 1, out, stats):
+            if check_state(live, ops, k - 1, out, stats, results):
                 nontrivial = True
             if out.failures:
                 break
@@ -170,8 +212,25 @@ def run(ctx, out):
             nontrivial += bool(nt)
         if len(samples) < 2 and rng is not None:
             samples.append([repr(o) for o in ops])
-    out.coverage.update({"evaluations": len(cases), "programs": len(seen), "distinct_nontrivial": nontrivial,
-                         "rule": RULE, "samples": samples, "input_distribution": dict(stats),
+    # small-scope exhaustive part: every motif program x applicable single edits (+ pairs)
+    class _H(S.Hooks):
+        def start(self, live, stats):
+            self.results = []
+
+        def after(self, live, ops, k, op, result, out2, stats):
+            self.results.append(result)
+            if op[0] in ("eval", "evalall", "set_value", "clear", "clear_all", "clear_at"):
+                return
+            check_state(live, ops, k, out2, stats, self.results)
+
+        def end(self, live, ops, out2, stats):
+            if not out2.failures:
+                values_vs_rebuilt(live, ops, len(ops) - 1, out2, stats)
+    S.enumerate_edits(ctx, out, "C03", _H, CFG, stats)
+    out.coverage.update({"evaluations": len(cases) + stats["enumerated_scenarios"], "programs": len(seen),
+                         "distinct_nontrivial": nontrivial,
+                         "rule": RULE + "; plus every motif program x applicable single edits (thorough: all) and pairs",
+                         "samples": samples, "input_distribution": dict(stats),
                          "traces_validated_against_impl": len(cases)})
     out.assumptions.append("object-valued references (rebinding) are C10's subject and are not compared here")
 
